@@ -10,6 +10,7 @@ package rollout
 import (
 	"github.com/openkruise/rollouts/api/v1beta1"
 	"github.com/openkruise/rollouts/pkg/trafficrouting"
+	"github.com/openkruise/rollouts/pkg/util"
 	"github.com/openkruise/rollouts/pkg/verifrt"
 	"github.com/openkruise/rollouts/pkg/verifrt/symclient"
 	metav1 "k8s.io/apimachinery/pkg/apis/meta/v1"
@@ -34,9 +35,16 @@ func c05StubAllTasksSucceed(calls *vCalls) {
 		})
 	}
 	verifrt.Stub(stubCalculateRolloutHash, func(r *RolloutReconciler, rollout *v1beta1.Rollout) error { return nil })
+	verifrt.Stub("(*github.com/openkruise/rollouts/pkg/util.ControllerFinder).GetWorkloadForRef", func(r *util.ControllerFinder, rollout *v1beta1.Rollout) (*util.Workload, error) {
+		return vWorkload(), nil
+	})
 }
 
 func c05DeletionDuringCleanup(blueGreen bool, prefix string) {
+	c05ExitDuringCleanup(blueGreen, false, prefix)
+}
+
+func c05ExitDuringCleanup(blueGreen, disable bool, prefix string) {
 	vSimple = true
 	var r *v1beta1.Rollout
 	if blueGreen {
@@ -63,19 +71,27 @@ func c05DeletionDuringCleanup(blueGreen bool, prefix string) {
 	if i > 0 || verifrt.Bool("earlier.cursorAlreadySet") {
 		r.Status.GetSubStatus().FinalisingStep = oldSeq[i]
 	}
-	now := metav1.Now()
-	r.DeletionTimestamp = &now
-	r.Finalizers = []string{"rollouts.kruise.io/rollout-finalizer"}
+	if disable {
+		r.Spec.Disabled = true
+	} else {
+		now := metav1.Now()
+		r.DeletionTimestamp = &now
+		r.Finalizers = []string{"rollouts.kruise.io/rollout-finalizer"}
+	}
 	cli := &symclient.Client{Objects: []client.Object{r}}
 	calls := &vCalls{}
 	c05StubAllTasksSucceed(calls)
 	rec := c10Reconciler(cli)
 	retry, newStatus, err := rec.calculateRolloutStatus(r)
-	verifrt.Assert(err == nil && !retry && newStatus != nil && newStatus.Phase == v1beta1.RolloutPhaseTerminating, prefix+".turnsTerminating")
+	wantPhase, reason := v1beta1.RolloutPhaseTerminating, v1beta1.FinaliseReasonDelete
+	if disable {
+		wantPhase, reason = v1beta1.RolloutPhaseDisabling, v1beta1.FinaliseReasonDisalbed
+	}
+	verifrt.Assert(err == nil && !retry && newStatus != nil && newStatus.Phase == wantPhase, prefix+".turnsTerminating")
 	if err != nil || newStatus == nil {
 		return
 	}
-	c := &RolloutContext{Rollout: r, NewStatus: newStatus, Workload: vWorkload(), FinalizeReason: v1beta1.FinaliseReasonDelete}
+	c := &RolloutContext{Rollout: r, NewStatus: newStatus, Workload: vWorkload(), FinalizeReason: reason}
 	done := false
 	for i := 0; i < 14 && !done; i++ {
 		var e error
@@ -98,5 +114,15 @@ func c05DeletionDuringCleanup(blueGreen bool, prefix string) {
 	verifrt.Cover(prefix + ".done")
 }
 
-func VerifC05_CanaryDeletionDuringAnotherCleanup()    { c05DeletionDuringCleanup(false, "C05.canary.reasonChange") }
-func VerifC05_BlueGreenDeletionDuringAnotherCleanup() { c05DeletionDuringCleanup(true, "C05.bluegreen.reasonChange") }
+func VerifC05_CanaryDeletionDuringAnotherCleanup() {
+	c05DeletionDuringCleanup(false, "C05.canary.reasonChange")
+}
+func VerifC05_BlueGreenDeletionDuringAnotherCleanup() {
+	c05DeletionDuringCleanup(true, "C05.bluegreen.reasonChange")
+}
+func VerifC05_CanaryDisableDuringAnotherCleanup() {
+	c05ExitDuringCleanup(false, true, "C05.canary.reasonChange.disable")
+}
+func VerifC05_BlueGreenDisableDuringAnotherCleanup() {
+	c05ExitDuringCleanup(true, true, "C05.bluegreen.reasonChange.disable")
+}
